@@ -34,7 +34,7 @@ package components
 //@   props C19
 //@   requires wf: wfSrcOut(p.BaseProcess, "out")
 //@   modifies *
-//@   ensures emits-one-ip-per-given-path-in-order[C19]: outN[old(p.outPorts["out"])] == old(outN[p.outPorts["out"]]) + len(old(p.filePaths)) && (forall j int :: 0 <= j && j < len(old(p.filePaths)) ==> outAt[old(p.outPorts["out"])][old(outN[p.outPorts["out"]]) + j] != nil && outAt[old(p.outPorts["out"])][old(outN[p.outPorts["out"]]) + j].path == old(p.filePaths)[j])
+//@   ensures emits-one-ip-per-given-path-in-order[C19]: outN[old(p.outPorts["out"])] == old(outN[p.outPorts["out"]]) + len(old(p.filePaths)) && (forall j int :: 0 <= j && j < len(old(p.filePaths)) ==> outAt[old(p.outPorts["out"])][old(outN[p.outPorts["out"]]) + j] != nil && ptr(FileIP, outAt[old(p.outPorts["out"])][old(outN[p.outPorts["out"]]) + j]).path == old(p.filePaths)[j])
 //@   loop 0 invariant range: 0 <= $i && $i <= len(p.filePaths)
 //@   loop 0 invariant stable: p == old(p) && p.filePaths == old(p.filePaths) && p.outPorts == old(p.outPorts) && p.outPorts["out"] == old(p.outPorts["out"]) && wfSrcOut(p.BaseProcess, "out")
-//@   loop 0 invariant so-far: outN[p.outPorts["out"]] == old(outN[p.outPorts["out"]]) + $i && (forall j int :: 0 <= j && j < $i ==> outAt[p.outPorts["out"]][old(outN[p.outPorts["out"]]) + j] != nil && allocated(outAt[p.outPorts["out"]][old(outN[p.outPorts["out"]]) + j]) && outAt[p.outPorts["out"]][old(outN[p.outPorts["out"]]) + j].path == p.filePaths[j])
+//@   loop 0 invariant so-far: outN[p.outPorts["out"]] == old(outN[p.outPorts["out"]]) + $i && (forall j int :: 0 <= j && j < $i ==> outAt[p.outPorts["out"]][old(outN[p.outPorts["out"]]) + j] != nil && allocated(outAt[p.outPorts["out"]][old(outN[p.outPorts["out"]]) + j]) && ptr(FileIP, outAt[p.outPorts["out"]][old(outN[p.outPorts["out"]]) + j]).path == p.filePaths[j])
